@@ -1,6 +1,14 @@
 //! C13 — jets: arity, order, result type, closed-form meaning.
 
+use crate::drive;
+use crate::explore::{par_for, product};
+use crate::gen;
+use crate::jets;
+use crate::lang::*;
+use crate::props::common::*;
+use crate::refmodel::val_expr;
 use crate::report::Report;
+use serde_json::json;
 use simfony::simplicity::jet::Elements;
 
 pub fn dump_jets() {
@@ -18,6 +26,118 @@ pub fn dump_jets() {
     }
 }
 
-pub fn run(_rep: &Report) -> i32 {
-    2
+fn call_program(name: &str, arg_tys: &[Ty], ret: &Ty) -> String {
+    let args: Vec<Expr> = (0..arg_tys.len()).map(|i| var(&format!("a{i}"))).collect();
+    let mut stmts: Vec<Stmt> = arg_tys.iter().enumerate().map(|(i, t)| let_(Pat::Id(format!("a{i}")), t.clone(), Expr::Witness(format!("A{i}")))).collect();
+    stmts.push(let_(Pat::id("r"), ret.clone(), jet(name, args)));
+    Program { items: vec![Item::Fn(FnDef { name: "main".into(), params: vec![], ret: None, body: (stmts, None) })] }.render()
+}
+
+pub fn run(rep: &Report) -> i32 {
+    let quick = rep.is_quick();
+    // the set of jets the *library* knows must be the documented set
+    let mut impl_names: Vec<String> = Elements::ALL.iter().map(|j| j.to_string()).collect();
+    impl_names.sort();
+    let names = jets::all_names();
+    if impl_names != names {
+        rep.machinery("Elements::ALL differs from the frozen snapshot (simplicity-lang version changed?)");
+    }
+    let modelled: Vec<String> = names.iter().filter(|n| jets::has_model(n)).cloned().collect();
+    rep.set("bounds", json!({"jets": names.len(), "jets_with_closed_form_model": modelled.len(), "argument_tuples_per_jet": if quick {"<= 64 (complete product of boundary sets)"} else {"<= 2048; all 2^16 operand pairs for 8-bit binary jets"}}));
+    // (a) callable with the documented signature; reserved ones rejected; arity / order edits rejected
+    par_for(&names, rep, 4, |i, name| {
+        rep.state();
+        let (ptys, ret) = jets::signature(name).unwrap();
+        let reserved = name == "verify" || name == "check_sig_verify";
+        let text = call_program(name, &ptys, &ret);
+        rep.transition(1);
+        rep.eval(1);
+        rep.trace(1);
+        let replay = |expect: &str, observed: &str, t: &str| json!({"kind": "compile", "program": t, "expect": expect, "observed": observed});
+        match drive::build(&text, simfony::Arguments::default(), false) {
+            Ok(_) if !reserved => rep.class("callable"),
+            Err(drive::CompileOutcome::Rejected(_)) if reserved => {
+                rep.class("reserved-rejected");
+                return;
+            }
+            Ok(_) => {
+                rep.violation("C13:reserved-jet-accepted", format!("reserved jet {name} can be called"), replay("reject", "accept", &text));
+                return;
+            }
+            Err(e) => {
+                rep.violation("C13:jet-not-callable", format!("jet::{name} with the documented signature ({} -> {}) not compiled: {e:?}", ptys.iter().map(|t| t.render()).collect::<Vec<_>>().join(", "), ret.render()), replay("accept", "reject", &text));
+                return;
+            }
+        }
+        // near misses of the call
+        let mut variants: Vec<(String, Vec<Ty>, Ty)> = vec![];
+        if !ptys.is_empty() {
+            variants.push(("argument-dropped".into(), ptys[..ptys.len() - 1].to_vec(), ret.clone()));
+        }
+        let mut more = ptys.clone();
+        more.push(Ty::U(8));
+        variants.push(("argument-added".into(), more, ret.clone()));
+        for k in 0..ptys.len().saturating_sub(1) {
+            if ptys[k] != ptys[k + 1] {
+                let mut sw = ptys.clone();
+                sw.swap(k, k + 1);
+                variants.push((format!("arguments-{k}-{}-swapped", k + 1), sw, ret.clone()));
+            }
+        }
+        let other_ret = if ret == Ty::U(8) { Ty::U(16) } else { Ty::U(8) };
+        variants.push(("result-type-changed".into(), ptys.clone(), other_ret));
+        for (what, tys, r) in variants {
+            let t = call_program(name, &tys, &r);
+            rep.transition(1);
+            rep.eval(1);
+            rep.trace(1);
+            match drive::guard(|| simfony::TemplateProgram::new(t.as_str()).map(|_| ())) {
+                Ok(Err(_)) => rep.class("near-miss-rejected"),
+                Ok(Ok(())) => rep.violation(format!("C13:near-miss-accepted:{}", what.split('-').next().unwrap_or("")), format!("jet::{name} accepted with {what}"), replay("reject", "accept", &t)),
+                Err(p) => rep.violation(format!("C13:panic:{}", drive::panic_site(&p)), format!("jet::{name} with {what} panicked: {p}"), replay("reject", "panic", &t)),
+            }
+        }
+        if i % 97 == 0 {
+            rep.sample(3, || json!({"part": "a", "jet": name, "program": text}));
+        }
+    });
+    // (b) closed-form meaning on the complete product of boundary sets
+    par_for(&modelled, rep, 1, |i, name| {
+        rep.state();
+        let (ptys, ret) = jets::signature(name).unwrap();
+        let free: Vec<(String, Ty)> = ptys.iter().enumerate().map(|(k, t)| (format!("x{k}"), t.clone())).collect();
+        let term = jet(name, free.iter().map(|(n, _)| var(n)).collect());
+        let pinned = match pin_build(&term, &ret, &free, &[], &[false]) {
+            Ok(p) => p,
+            Err((text, o)) => {
+                rep.violation("C13:jet-not-callable", format!("jet::{name} program not compiled: {o:?}"), json!({"kind": "compile", "program": text, "expect": "accept", "observed": "reject"}));
+                return;
+            }
+        };
+        // argument alphabets: all 2^16 pairs for 8-bit binary jets in thorough; otherwise boundary products
+        let total_bits: u32 = ptys.iter().map(|t| gen::count_vals(t)).fold(0u32, |a, c| a.saturating_add(if c == u128::MAX { 1000 } else { 128 - c.leading_zeros() }));
+        let budget: usize = if quick { 64 } else if total_bits <= 18 { 1 << 17 } else { 2048 };
+        let (lists, _) = value_lists(&free, budget);
+        let sizes: Vec<usize> = lists.iter().map(|l| l.len()).collect();
+        let mut n = 0u64;
+        product(&sizes, |idx| {
+            let vals: Vec<Val> = idx.iter().enumerate().map(|(k, &j)| lists[k][j].clone()).collect();
+            rep.transition(1);
+            let distinct = (0..vals.len()).all(|a| (0..a).all(|b| vals[a] != vals[b]));
+            if distinct && vals.len() >= 2 {
+                rep.nontrivial(1);
+            }
+            let tag = format!("jet {name}({})", vals.iter().zip(&ptys).map(|(v, t)| render_expr(&val_expr(v, t))).collect::<Vec<_>>().join(", "));
+            drive::DUMMY.with(|env| pin_run(rep, "C13", &tag, &pinned, &vals, env, n < 2));
+            n += 1;
+        });
+        if i % 61 == 0 {
+            rep.sample(6, || json!({"part": "b", "jet": name, "argument_tuples": n, "program": pinned.text}));
+        }
+    });
+    rep.finish(
+        "states = jets (a: signature, b: closed-form model); transitions = call variants + argument tuples; non-trivial = argument tuples whose operands are pairwise different (a swapped operand order would show)",
+        &["operand grouping follows the frozen snapshot data/jet_sigs.txt of the pinned release's table (not an independent oracle)", "operand order, result shape and value functions (R5) are written from the Simplicity jet semantics; the C jets of simplicity-lang are trusted", "jets without a closed form (hashes, EC, transaction introspection) are only checked for callability"],
+        true,
+    )
 }
